@@ -165,6 +165,7 @@ func (e *Engine) intrinsic(st *State, fn *ssa.Function, args []Value, ci ssa.Val
 			return true
 		case "vReach":
 			e.reach[args[0].(string)]++
+			st.reachSeq = append(st.reachSeq, args[0].(string))
 			e.finish(st, ci, nil, fd)
 			return true
 		case "vChoose":
